@@ -135,3 +135,15 @@ def register(claim, na):
         "shadow symbolic weights through the real code + DFS path explorer (z3 feasibility) + per-path z3 obligations; UF abstraction of ln",
         "DESIGN.md §1 E2, §2 C17",
     )
+    claim(
+        "C12", "model_checking",
+        "Symbolic path exploration of Wavefunction in numeric mode: every amplitude part and every assigned value part is a z3 real; the constructor, "
+        "histories of <= 3 element assignments and get_probabilities run through the real code (numpy proxied to object arrays); z3 proves on every "
+        "path that acceptance coincides with the normalisation band, that a rejected assignment leaves the object exactly as it was, that accepted "
+        "assignments store the value, and that probabilities are |a|^2 and sum to 1. The Dicke bit trick is the real function executed on a 20-bit "
+        "z3 bit-vector (same weight, larger, nothing skipped, for every value below 2^14). flip_amplitudes is run on symbolic amplitudes (bit reversal, involutive).",
+        "Exact-real floats with a 1e-6 relative margin around the band edge; the library's symbolic (sympy) mode cannot hold symbolic numeric entries: "
+        "a ground table of 16 constructor/assignment/binding patterns; Dicke enumeration, save/load and length validation are ground instances.",
+        "shadow symbolic amplitudes through the real code + DFS path explorer (z3) + per-path obligations; duck-typed bit-vector execution of the bit trick",
+        "DESIGN.md §1 E2/E4, §2 C12",
+    )
